@@ -329,6 +329,24 @@ func (c *ctx) systematic() {
 			})
 		}
 	}
+	// local faults: the connection's Write fails from every write index on; the application
+	// closes the session at every point of the stanza script
+	for _, seqT := range stanzaTemplates {
+		var st []string
+		for _, s := range seqT {
+			st = append(st, parse(s).String())
+		}
+		w := c.servex("w", 1<<20, st, "fault-none") // clean run: counts the writes
+		if w > 12 {
+			w = 12
+		}
+		for k := 0; k < w; k++ {
+			c.servex("w", k, st, "fault-write")
+		}
+		for k := 0; k <= len(st); k++ {
+			c.servex("c", k, st, "fault-close")
+		}
+	}
 	for _, h := range helpers {
 		for _, t := range h.templates {
 			c.helper(h, "result", t, "template")
@@ -388,6 +406,14 @@ func (c *ctx) random() {
 			in = in[:rnd.Intn(len(in)+1)] // truncated input
 		case 2:
 			in += "<"
+		}
+		if rnd.Chance(1, 5) {
+			if rnd.Bool() {
+				c.servex("w", rnd.Intn(6), parts, "random-fault-write")
+			} else {
+				c.servex("c", rnd.Intn(len(parts)+1), parts, "random-fault-close")
+			}
+			continue
 		}
 		c.serve(in, "random")
 	}
